@@ -20,6 +20,7 @@ import BufrModel.Drv.FlatOp
 import BufrModel.Drv.LinksOp
 import BufrModel.Drv.ViewOp
 import BufrModel.Drv.StreamOp
+import BufrModel.Drv.WidthsOp
 open Lean Bufr.Drv
 
 /-- stateless operations: one line per op -/
@@ -65,6 +66,8 @@ def statefulOps : List (String × (DrvState → Json → J (DrvState × Json))) 
   ("to-flat", opToFlat) ::
   ("views", opViews) ::
   ("scan", opScan) ::
+  ("enc-data-widths", opEncDataWidths) ::
+  ("dec-subsets", opDecSubsets) ::
   []
 
 def dispatch (st : DrvState) (j : Json) : J (DrvState × Json) := do
